@@ -82,6 +82,9 @@ fn dfs_case(ctx: &mut Ctx, prop: &'static str, classes: &'static [&'static str],
     let mut found = false;
     let st = dfs(ctx, case, cap, eager, |ctx, run, spec| {
         account(ctx, run);
+        if nontrivial && case.n >= 2 {
+            ctx.sample(|| crate::props::graph::sample_json(case, run, spec));
+        }
         if nontrivial {
             ctx.distinct.insert(chash ^ run.trace_hash.rotate_left(13));
         }
@@ -223,7 +226,7 @@ fn run_c02(ctx: &mut Ctx) {
         sampled_schedules(ctx, "C02", C02_CLASSES, &case, &mut r, ctx.tier.pick(3, 12), *mask != 0);
     }
     // early poll at every choice point of a few fixed graphs (chain, diamond, fan-in)
-    for (n, mask) in [(3usize, 0b000_001_010u64), (4, 0b0000_1000_1000_0110), (3, 0b000_000_110)] {
+    for (n, mask) in [(3usize, 0b100_010u64), (4, 0b0000_1000_1000_0110), (3, 0b000_000_110)] {
         let points = ctx.tier.pick(4u32, 14);
         for at in 1..=points {
             if !ctx.claim(2_000_000 + (n as u64) * 100 + mask + at as u64 * 100_000) {
@@ -282,7 +285,6 @@ fn run_c02(ctx: &mut Ctx) {
             }
         }
     }
-    ctx.sample(|| GraphCase::new(3, 0b000_001_110).to_json(&Spec::Controlled { strategy: Strategy::Dfs(vec![(1, 3), (0, 2)]), early_poll_at: None, eager_recv: false }));
 }
 
 fn replay_graph(ctx: &mut Ctx, prop: &'static str, classes: &'static [&'static str], v: &Value) {
@@ -337,7 +339,7 @@ fn digraph_enumeration(ctx: &mut Ctx, prop: &'static str, classes: &'static [&'s
         if !ctx.time_left() {
             break;
         }
-        let mut case = GraphCase::new(3, [0b000_001_010u64, 0b000_000_110, 0b000_001_110][(i % 3) as usize]);
+        let mut case = GraphCase::new(3, [0b100_010u64, 0b000_000_110, 0b100_110][(i % 3) as usize]); // chain, fan-out, triangle
         case.slow_ms = 900;
         case.markers = true;
         case.threads = [1, 3][(i % 2) as usize];
@@ -416,7 +418,6 @@ fn digraph_enumeration(ctx: &mut Ctx, prop: &'static str, classes: &'static [&'s
 
 fn run_c03(ctx: &mut Ctx) {
     digraph_enumeration(ctx, "C03", C03_CLASSES, false);
-    ctx.sample(|| GraphCase::new(3, 0b010_100_011).to_json(&Spec::Controlled { strategy: Strategy::Dfs(vec![(2, 3)]), early_poll_at: None, eager_recv: false }));
 }
 
 fn replay_c03(ctx: &mut Ctx, v: &Value) {
@@ -425,7 +426,6 @@ fn replay_c03(ctx: &mut Ctx, v: &Value) {
 
 fn run_c05(ctx: &mut Ctx) {
     digraph_enumeration(ctx, "C05", C05_CLASSES, true);
-    ctx.sample(|| json!({"note": "2-cycle f1<->f2 with bystander f0 requested together", "case": GraphCase::new(3, 0b010_100_000).to_json(&Spec::Controlled { strategy: Strategy::Dfs(vec![]), early_poll_at: None, eager_recv: false })}));
 }
 
 fn replay_c05(ctx: &mut Ctx, v: &Value) {
